@@ -1819,7 +1819,11 @@ func (e *Engine) runPath(st *State) {
 		if st.switchNow {
 			st.switchNow = false
 			if st.switchTo > 0 {
+				if traceSched {
+					st.trace = append(st.trace, fmt.Sprintf("g%d(preempted %s)->g%d", st.cur, e.framePos(st.fr), st.switchTo-1))
+				}
 				st.threads[st.cur].fr = st.fr
+				st.stuck = 0 // the preempted goroutine is runnable: nobody is stuck yet
 				st.cur = st.switchTo - 1
 				st.fr = st.threads[st.cur].fr
 			} else {
